@@ -34,7 +34,7 @@ def gen_mesh(rng, tier, ndim=None, maxcells=None):
 def build_mesh(m):
     """Returns list of cells {pos (tuple, in spatial unit), dx, gid, level}."""
     w = World({"wseed": m["wseed"], "ndim": m["ndim"], "ncpu": 1, "levelmin": m["levelmin"], "levelmax": m["levelmax"],
-               "refine_p": m["refine_p"], "maxcells": m["maxcells"], "ordering": "planar"})
+               "refine_p": m["refine_p"], "maxcells": m["maxcells"], "ordering": "planar", "chain": m.get("chain")})
     cells = []
     hb = None
     if m.get("hole_box"):
